@@ -678,6 +678,7 @@ func (fc *FnCtx) lockOp(st *State, op string, arg Val, site string) {
 					lab = fmt.Sprintf("%s/%d", name, i+1)
 				}
 				fc.oblige(st, "monitor-inv", lab, site, t, fmt.Sprintf("invariant of %s re-established at %s (conjunct %d of %s)", name, op, i+1, m.InvSrc))
+				fc.S.Assume(Implies(st.PC, t), "monitor invariant conjunct (obligation above)")
 			}
 		}
 		delete(top.held, name)
